@@ -3,8 +3,8 @@ package main
 // Solver session of one path, obligations, candidate violations.
 
 import (
-	"os"
 	"fmt"
+	"os"
 	"sort"
 	"strings"
 	"time"
@@ -54,38 +54,38 @@ func (p *PathCtl) Choose(n int, feasible func(i int) bool) int {
 }
 
 type OblStat struct {
-	ID         string
-	Kind       string
-	Posed      int // queries posed (pc ∧ ¬cond)
-	Discharged int // answered unsat (or constant-true)
-	Trivial    int // constant-folded to true
-	Nontrivial int // reachable and still symbolic
+	ID            string
+	Kind          string
+	Posed         int // queries posed (pc ∧ ¬cond)
+	Discharged    int // answered unsat (or constant-true)
+	Trivial       int // constant-folded to true
+	Nontrivial    int // reachable and still symbolic
 	PathDependent int // constant-true on a path selected by symbolic decisions
-	Reached    int
-	Pos        map[string]bool
-	SolverMs   float64
-	Sample     string
+	Reached       int
+	Pos           map[string]bool
+	SolverMs      float64
+	Sample        string
 }
 
 type Candidate struct {
-	Property  string
-	Harness   string
-	Pkg       string
-	OblID     string
-	Kind      string
-	Pos       string
-	Msg       string
-	Model     map[string]ModelVal
-	Choices   map[string]int
-	Classes   map[string]bool
-	PathTrace []int
-	Explicit  []int
-	ChoiceSeq []int
-	Mode      Mode
-	Known     *Finding
-	Replay    string // "confirmed","not-reproduced","assume-failed","error","skipped"
-	ReplayOut string
-	Conc      *ConcCex
+	Property        string
+	Harness         string
+	Pkg             string
+	OblID           string
+	Kind            string
+	Pos             string
+	Msg             string
+	Model           map[string]ModelVal
+	Choices         map[string]int
+	Classes         map[string]bool
+	PathTrace       []int
+	Explicit        []int
+	ChoiceSeq       []int
+	Mode            Mode
+	Known           *Finding
+	Replay          string // "confirmed","not-reproduced","assume-failed","error","skipped"
+	ReplayOut       string
+	Conc            *ConcCex
 	EngineConfirmed bool
 	EngineOut       string
 }
@@ -95,51 +95,51 @@ type ConcCex struct {
 }
 
 type HarnessResult struct {
-	H             *Harness
-	Paths         int
-	PathsPruned   int
-	Obls          map[string]*OblStat
-	Candidates    []*Candidate
-	Inconclusive  []string
-	Errors        []string
-	Reaches       map[string]int
-	Queries       int
-	SolverTime    time.Duration
-	Funcs         map[string]bool
-	Stubs         map[string]bool
-	Wall          time.Duration
-	UnwindFail    map[string]bool
-	Undecided     []string // claims=none harnesses: obligations left undecided (not claimed)
-	ExpectedIDs   []string
-	ExpectedReach []string
-	Samples       []map[string]interface{}
-	FpOps         int
-	ConcCombos    int
+	H              *Harness
+	Paths          int
+	PathsPruned    int
+	Obls           map[string]*OblStat
+	Candidates     []*Candidate
+	Inconclusive   []string
+	Errors         []string
+	Reaches        map[string]int
+	Queries        int
+	SolverTime     time.Duration
+	Funcs          map[string]bool
+	Stubs          map[string]bool
+	Wall           time.Duration
+	UnwindFail     map[string]bool
+	Undecided      []string // claims=none harnesses: obligations left undecided (not claimed)
+	ExpectedIDs    []string
+	ExpectedReach  []string
+	Samples        []map[string]interface{}
+	FpOps          int
+	ConcCombos     int
 	PrunedPrefixes int // prefixes of thread-path combinations whose relaxed event-order query is unsat
 	PartialQueries int
-	PrunedCombos  int // thread-path combinations rejected by the solver-free necessary conditions
-	Events        int
-	Blocked       int
-	Winners       []string
-	UnwindCuts    int
+	PrunedCombos   int // thread-path combinations rejected by the solver-free necessary conditions
+	Events         int
+	Blocked        int
+	Winners        []string
+	UnwindCuts     int
 	FeasibleCombos int
-	RacePairs     int
-	PassBoundHit  int
-	RacePathCaps  int
+	RacePairs      int
+	PassBoundHit   int
+	RacePathCaps   int
 }
 
 type Session struct {
-	solver  *Solver
-	r       *Renderer
-	ts      *TS
-	ex      *Exec
-	res     *HarnessResult
-	script  strings.Builder
-	choices map[string]int
-	feasTO  time.Duration
-	oblTO   time.Duration
-	known   []*Finding
-	ended   bool
+	solver       *Solver
+	r            *Renderer
+	ts           *TS
+	ex           *Exec
+	res          *HarnessResult
+	script       strings.Builder
+	choices      map[string]int
+	feasTO       time.Duration
+	oblTO        time.Duration
+	known        []*Finding
+	ended        bool
 	lastRestarts int
 	// concrete re-execution mode
 	concrete bool
@@ -179,9 +179,9 @@ func (s *Session) ref(t *Term) string {
 }
 
 type pcMarkT struct {
-	nTerms    int
-	scriptLen int
-	emitLen   int
+	nTerms                                int
+	scriptLen                             int
+	emitLen                               int
 	nAx, nFam, nGrid, nAnch, nI2F, nRange int
 }
 
